@@ -186,6 +186,8 @@ func c12(x *runCtx) {
 		}
 		c12Input(x, b, class, i%8 == 0)
 	}
+	x.c.flush()
+	c12Typed(x)
 }
 
 // adversarial returns hand-built hostile shapes: nested length-inflated arrays/maps,
